@@ -141,21 +141,26 @@ func AnalyzeGo(src []byte) ([]GoField, error) {
 						texts = append(texts, c.Text)
 					}
 					gf.Comment = strings.Join(texts, "\n")
-					if i := strings.Index(gf.Comment, "@tag"); i >= 0 {
+					if strings.Contains(gf.Comment, "@tag") {
 						gf.MentionTag = true
-						if j := strings.Index(gf.Comment, "@tag "); j >= 0 {
-							rest := gf.Comment[j+len("@tag "):]
+						// every trailing comment of the field may carry items; they are merged in order
+						for _, c := range fl.Comment.List {
+							j := strings.Index(c.Text, "@tag ")
+							if j < 0 {
+								continue
+							}
+							rest := c.Text[j+len("@tag "):]
 							if nl := strings.IndexByte(rest, '\n'); nl >= 0 {
 								rest = rest[:nl]
 							}
-							gf.Inject = ScanTagItems(rest)
-							for _, it := range gf.Inject {
-								if strings.Contains(it.V, "`") {
-									// a backquote cannot be written into a raw-string literal: the
-									// field cannot be processed and must keep what it has
-									gf.Inject = nil
-									break
-								}
+							gf.Inject = append(gf.Inject, ScanTagItems(rest)...)
+						}
+						for _, it := range gf.Inject {
+							if strings.Contains(it.V, "`") {
+								// a backquote cannot be written into a raw-string literal: the
+								// field cannot be processed and must keep what it has
+								gf.Inject = nil
+								break
 							}
 						}
 					}
